@@ -364,6 +364,12 @@ func (r *errResolver) funcValueAlts(v ssa.Value, ri int, at *ssa.Call) []ErrAlt 
 			out = append(out, n)
 		}
 		return dedupAlts(out)
+	case *ssa.Const:
+		if x.IsNil() {
+			// a nil function value is never called without a panic: it contributes
+			// no error alternative (C05 judges the call site)
+			return nil
+		}
 	case *ssa.MakeClosure:
 		return r.funcValueAlts(x.Fn, ri, at)
 	case *ssa.ChangeType:
